@@ -82,11 +82,20 @@ pub fn generate(
                         }
                     }
                     CustomType::Yes(_) => {
+                        // The raw value has to be of exactly the type that the bits of this field make up (e.g. u7 for 7 bits).
+                        // The getter enforces that through new_with_raw_value(); spell the type out here so that a type of
+                        // the wrong width is a compile error for write-only fields as well (a wider one would otherwise
+                        // write into the bits above the field).
                         // Once signed bitenum or bitfield-base-data-types are a thing, we'll need to pay special attention to sign extension here
                         if field_definition.use_regular_int {
-                            quote! { field_value.raw_value() }
+                            let raw_type = &field_definition.primitive_type;
+                            quote! { ::core::convert::identity::<#raw_type>(field_value.raw_value()) }
                         } else {
-                            quote! { field_value.raw_value().value() }
+                            let raw_type = TokenStream2::from_str(
+                                format!("arbitrary_int::u{}", field_definition.field_type_size).as_str(),
+                            )
+                            .unwrap();
+                            quote! { ::core::convert::identity::<#raw_type>(field_value.raw_value()).value() }
                         }
                     }
                 };
